@@ -80,7 +80,7 @@ type Proof struct {
 }
 
 func (p *Proof) IsValid(public Public) bool {
-	if p == nil {
+	if p == nil || p.Commitment == nil {
 		return false
 	}
 	if !public.Verifier.ValidateCiphertexts(p.A) {
